@@ -258,7 +258,7 @@ fn classify(e: &Entry, o: &Outcome) -> Option<(String, String)> {
                 let (size, tail) = rest.split_once('|').unwrap_or((rest, ""));
                 return Some((format!("{}|enormous-allocation||", e.kind), format!("single allocation request of {size} bytes (refused, the caller survived: {tail})")));
             }
-            if let Some(size) = l.strip_prefix("X|") {
+            if let Some(size) = l.strip_prefix("X|").map(|r| r.split('|').next().unwrap_or(r)) {
                 return Some((format!("{}|enormous-allocation||", e.kind), format!("single allocation request of {size} bytes")));
             }
             if let Some(rest) = l.strip_prefix("P|") {
@@ -329,20 +329,29 @@ pub fn run(args: &Args) -> i32 {
     // largest deserializers first would cluster; interleave by sorting on start offset
     units.sort_by_key(|u| (u.1, u.0));
     let evaluations = AtomicU64::new(0);
+    let unconfirmed_hangs = AtomicU64::new(0);
     let distinct = DistinctCounter::default();
     let classes: Mutex<BTreeMap<String, u64>> = Mutex::new(BTreeMap::new());
     let coll = Collector::default();
     let affected: Mutex<BTreeMap<String, std::collections::BTreeSet<String>>> = Mutex::new(BTreeMap::new());
-    let tier_s = args.tier.as_str().to_string();
     par_for(units.len(), args.seed, |_, ui| {
         let (ei, start, end) = units[ui];
         let e = &entries[ei];
         let cs = &all_cases[ei];
         let mut local: BTreeMap<String, u64> = BTreeMap::new();
-        let job = vec![ei.to_string(), scratch.path(&format!("{ei}.cases")), "--tier".to_string(), tier_s.clone()];
+        let job = vec![ei.to_string(), scratch.path(&format!("{ei}.cases"))];
         run_range("C21", &job, start, end, &mut |idx, o| {
             evaluations.fetch_add(1, Ordering::Relaxed);
             let c = &cs[idx];
+            let mut o = o;
+            if matches!(&o, Outcome::Died { kind: "hang", .. }) {
+                // a hang counts only if it repeats alone in a fresh child
+                let o2 = run_single(&e.name, &hex(&c.bytes));
+                if !matches!(&o2, Outcome::Died { kind: "hang", .. }) {
+                    unconfirmed_hangs.fetch_add(1, Ordering::Relaxed);
+                }
+                o = o2;
+            }
             if !c.bytes.is_empty() {
                 let mut key = e.name.as_bytes().to_vec();
                 key.push(0);
@@ -384,11 +393,12 @@ pub fn run(args: &Args) -> i32 {
     report.set("seed_bytes_per_deserializer", json!(args.tier.pick(SEED_BYTES_QUICK, SEED_BYTES_THOROUGH)));
     report.set("max_seeds_per_deserializer", json!(args.tier.pick(MAX_SEEDS_QUICK, MAX_SEEDS_THOROUGH)));
     report.set("allocation_limit_bytes", json!(crate::alloc::LIMIT));
-    report.set("case_wall_limit_ms", json!(crate::child::CASE_WALL_LIMIT_MS));
+    report.set("case_wall_limit_ms", json!(crate::child::wall_limit_ms()));
     report.set("cases_per_deserializer", Value::Array(entries.iter().enumerate().map(|(i, e)| json!([e.name, counts[i].load(Ordering::SeqCst), seeds_used[i].load(Ordering::SeqCst)])).collect()));
     report.set("outcome_classes", json!(classes));
     report.set("distinct_outcome_classes", json!(classes.len()));
     report.set("violating_cases", json!(coll.total()));
+    report.set("slow_cases_not_confirmed_as_hang", json!(unconfirmed_hangs.load(Ordering::Relaxed)));
     report.set("deserializers_affected_per_signature", json!(affected.iter().map(|(k, v)| (k.clone(), v.iter().cloned().collect::<Vec<_>>())).collect::<BTreeMap<_, _>>()));
     report.set("exhaustive", json!(true));
     report.assume("Vec<Empty> (zero-sized elements): only the mutations of valid encodings and the <=3-byte strings are enumerated, because every longer string is a multi-second loop");
